@@ -446,7 +446,7 @@ func (e *Exec) queryOn(st *DBState, sql string, params map[string]SQLVal) *rowsR
 					l = tBVCmp("bvslt", ka.I, kb.I)
 					eq = tEq(ka.I, kb.I)
 				} else {
-					l = mkUF("sqlStrLess", SBool, ka.S, kb.S)
+					l = mkUF("sqlStrLess", SBool, toBlob(ka.S), toBlob(kb.S))
 					eq = tEq(ka.S, kb.S)
 				}
 				if ot.desc {
